@@ -223,6 +223,56 @@ func Run(c *gen.Ctx) error {
 	if err := meta.AddCaseFile(cf, descr); err != nil {
 		return err
 	}
+	// (a') the word-level functions against Model.ToGo: every text over a small alphabet up to a length, and
+	// random concatenations of words, initialisms, digits and delimiters
+	tg := &gen.CaseFile{Dir: c.OutDir, Prop: "C17", Kind: "togo", Requires: []string{"Base.Prelude", "Model.ToGo", "Corr.Corr_C17"}, Type: "togo_case",
+		Checks: []gen.Check{{Label: "corr", Fn: "togo_corr"}, {Label: "mon", Fn: "togo_mon"}, {Label: "monmodel", Fn: "togo_monmodel"}}, Shard: 2500}
+	var tdescr []any
+	addName := func(n string) {
+		g, p := templates.ToGo(n), templates.ToGoPrivate(n)
+		tg.Add(fmt.Sprintf("{| tg_name := %s; tg_go := %s; tg_private := %s |}", cstr(n), cstr(g), cstr(p)))
+		tdescr = append(tdescr, map[string]string{"name": n, "ToGo": g, "ToGoPrivate": p})
+	}
+	alphabet := []string{"a", "d", "B", "I", "D", "P", "_", "1", "-"}
+	maxLen := 4
+	if c.Thorough() {
+		maxLen = 5
+	}
+	var enum func(prefix string, k int)
+	enum = func(prefix string, k int) {
+		if prefix != "" {
+			addName(prefix)
+		}
+		if k == 0 {
+			return
+		}
+		for _, a := range alphabet {
+			enum(prefix+a, k-1)
+		}
+	}
+	enum("", maxLen)
+	tokens := []string{"id", "ID", "Id", "ip", "IP", "url", "URL", "Urls", "URLs", "http", "HTTP", "HTTPS", "api", "API", "uuid", "UUID", "utf8", "UTF8", "user", "User", "USER",
+		"type", "func", "map", "range", "go", "select", "default", "interface", "var", "Foo", "foo", "FOO", "FOo", "x", "X", "i", "I", "_", "__", "-", " ", "1", "22", "0",
+		"Ticket", "iPhone", "camelCase", "snake_case", "SCREAMING_SNAKE", "a1", "B2", "v2", "ACL", "Acl", "QR", "Vm", "VM", "XSS", "Aws"}
+	nRand := 1500
+	if c.Thorough() {
+		nRand = 20000
+	}
+	tr := r.Fork(3)
+	for i := 0; i < nRand; i++ {
+		var sb strings.Builder
+		for j := 0; j < 1+tr.Intn(5); j++ {
+			sb.WriteString(gen.Pick(tr, tokens))
+		}
+		addName(sb.String())
+	}
+	for _, n := range append(append([]string{}, fieldNames...), append(argNames, append(typeNamePool, enumValuePool...)...)...) {
+		addName(n)
+	}
+	if err := meta.AddCaseFile(tg, tdescr); err != nil {
+		return err
+	}
+	meta.Distribution["word_level_names_compared"] = tg.Len()
 	// (b) sweep
 	root := filepath.Join(os.Getenv("VERIF_WORK"), "c17")
 	if os.Getenv("VERIF_WORK") == "" {
@@ -239,7 +289,8 @@ func Run(c *gen.Ctx) error {
 	// the kept finding, pinned: two type names that normalise to one Go identifier
 	pinned := &sweepCase{Config: GenConfig(gen.NewRand(7)), Schema: map[string]string{"a.graphqls": "scalar Custom\ntype user_profile { a: Int }\ntype UserProfile { b: Int }\nunion Either = user_profile | UserProfile\ntype Query { one: user_profile two: UserProfile either: Either }\n"}}
 	pinned2 := &sweepCase{Config: GenConfig(gen.NewRand(8)), Schema: map[string]string{"a.graphqls": "scalar Custom\ntype Query { f(_: Int): Int }\n"}}
-	cases = append(cases, pinned, pinned2)
+	pinned3 := &sweepCase{Config: GenConfig(gen.NewRand(9)), Schema: map[string]string{"a.graphqls": "scalar Custom\ntype Thing { _1: Int }\ntype Query { thing: Thing }\n"}}
+	cases = append(cases, pinned, pinned2, pinned3)
 	cases = append(cases, idiomProjects()...)
 	nSweep = len(cases)
 	errs := make([]error, nSweep)
@@ -273,6 +324,13 @@ func Run(c *gen.Ctx) error {
 			if sc.Stage != "" {
 				meta.Direct = append(meta.Direct, gen.DirectFinding{Signature: "argument-named-underscore-forwarded-as-blank-identifier",
 					What: "type Query { f(_: Int): Int }: " + sc.Stage + " failed: " + sc.Output, Replay: sc})
+			}
+			continue
+		}
+		if sc == pinned3 {
+			if sc.Stage != "" {
+				meta.Direct = append(meta.Direct, gen.DirectFinding{Signature: "digit-after-leading-underscores-gives-identifier-starting-with-a-digit",
+					What: "type Thing { _1: Int }: " + sc.Stage + " failed: " + sc.Output, Replay: sc})
 			}
 			continue
 		}
